@@ -14,7 +14,12 @@ A *case* is a JSON-able dict
   template [["lit", text] | ["arg", name], ...], args {name: text}   (invalidate; pattern = the substitution)
 
 Key texts are mapped to model numbers by their position in the universe (store keys, then transaction keys).
-Values: `i:<int>` Python int, `t:<n>` the string 't<n>'.
+Values (`valtok`): `i:<int>` Python int, `t:<n>` the string 't<n>' (n < 1000), `n` a stored `None`, `e:<c>` the other
+values a pattern command must treat as plain values although they are falsy / odd (`e:s` '', `e:b` b'', `e:l` [],
+`e:f` False, `e:d` {}, `e:z` 0.0, `e:u` (), `e:T` True), and - in `keys` only - `b:<n>` a bit-field object: the key is
+created with `incr_bits` (a `Bitarray` kept in the same store), which `scan` lists and `delete_match` deletes like any
+other key and which `get_match` skips on purpose (it is not a cached value).  Results are rendered type-strictly
+(`0`, `0.0` and `False` are three different observations; `-` = "no value", which get_match must never yield).
 """
 from __future__ import annotations
 
@@ -23,7 +28,7 @@ import json
 import re
 
 from . import vtime
-from .memhist import SENT, show_val, val_of
+from .memhist import SENT
 from .vtime import CLOCK
 
 SMALL_ALPHABET = "a:*.+("
@@ -38,6 +43,58 @@ URLS = {
     "facade": "mem://?size={size}&check_interval=0",
     "facade_secret": "mem://?size={size}&check_interval=0&secret=s3cr3t&digestmod=sha1",
 }
+
+
+# ------------------------------------------------------------------------------------------------
+# the value alphabet
+
+EXTRA_VALS = {"s": "", "b": b"", "l": [], "f": False, "d": {}, "z": 0.0, "u": (), "T": True}
+
+
+def is_bits(tok: str) -> bool:
+    return tok.startswith("b:")
+
+
+def val_of(tok: str):
+    """the Python value a value token stands for (a fresh object each time); not for bit fields"""
+    if tok == "n":
+        return None
+    kind, x = tok.split(":")
+    if kind == "i":
+        return int(x)
+    if kind == "t":
+        return f"t{x}"
+    if kind == "e":
+        v = EXTRA_VALS[x]
+        return type(v)(v) if isinstance(v, (list, dict)) else v
+    raise ValueError(f"not a plain value: {tok}")
+
+
+def bits_args(tok: str) -> tuple[int, int]:
+    """`b:<n>` is the bit field obtained by incr_bits(key, n % 4, size=2, by=1 + n // 4)"""
+    n = int(tok[2:])
+    return n % 4, 1 + n // 4
+
+
+def show_val(v) -> str:
+    """type-strict rendering of a value that came out of the implementation"""
+    if v is SENT:
+        return "-"
+    if v is None:
+        return "n"
+    t = type(v)
+    if t is bool:
+        return "e:T" if v else "e:f"
+    if t is int:
+        return f"i:{v}"
+    if t is str and v.startswith("t") and v[1:].isdigit() and int(v[1:]) < 1000:
+        return f"t:{v[1:]}"
+    for c, w in EXTRA_VALS.items():
+        if t is type(w) and t is not bool and v == w:
+            return f"e:{c}"
+    if t.__name__ == "Bitarray":
+        return "?bitfield"
+    return f"?{t.__name__}:{v!r}"
 
 
 def enc(s: str) -> str:
@@ -121,6 +178,8 @@ def well_formed(case: dict) -> bool:
         return False
     if any(c in EXCLUDED for t in texts + [pattern_of(case)] for c in t):
         return False
+    if any(op[0] == "set" and is_bits(op[2]) for op in case.get("txops") or []):
+        return False        # a transaction cannot buffer a bit field (incr_bits is proxied to the backend)
     return not reaches_reserved(case)
 
 
@@ -210,9 +269,20 @@ async def _make_api(kind: str, size: int = BIG):
     return cache
 
 
+async def _put(api, text: str, ttl, val: str):
+    """write one store entry: a plain value with `set`, a bit field with `incr_bits` (+ `expire` for its ttl)"""
+    if is_bits(val):
+        index, by = bits_args(val)
+        await api.incr_bits(text, index, size=2, by=by)
+        if ttl is not None:
+            await api.expire(text, ttl / 8)
+    else:
+        await api.set(text, val_of(val), expire=None if ttl is None else ttl / 8)
+
+
 async def _fill(api, case: dict):
     for text, ttl, val in case["keys"]:
-        await api.set(text, val_of(val), expire=None if ttl is None else ttl / 8)
+        await _put(api, text, ttl, val)
     CLOCK.advance(case.get("adv", 0))
 
 
@@ -391,7 +461,7 @@ async def sweep(kind: str, keys: list, adv: int, patterns: list[str], cmd: str) 
         for t in gone:
             _, ttl, val = vals[t]
             if ttl is None:
-                await api.set(t, val_of(val))
+                await _put(api, t, None, val)
     return out
 
 
@@ -410,12 +480,31 @@ def sweep_lines(keys: list, adv: int, patterns: list[str], cmd: str) -> list[str
 # ------------------------------------------------------------------------------------------------
 # generators
 
-VALS = ["i:0", "i:1", "i:7", "t:0", "t:1", "t:2", "t:3"]
-PLACEMENTS = ["A", "S", "X", "O", "SO", "XO", "SD", "D", "SDO", "OD", "St", "Ot"]
+ORDINARY_VALS = ["i:1", "i:7", "t:0", "t:1", "t:2", "t:3", "e:T"]
+FALSY_VALS = ["i:0", "e:s", "e:b", "e:l", "e:f", "e:d", "e:z", "e:u"]       # values a truthiness test would drop
+PLAIN_VALS = ["n"] + FALSY_VALS + ORDINARY_VALS                              # what `set` can store
+BIT_VALS = ["b:0", "b:5"]                                                    # bit fields (store only)
+STORE_VALS = PLAIN_VALS + BIT_VALS
+
+
+def rand_val(rng, store: bool) -> str:
+    """a value token: None 18%, another falsy value 22%, a bit field 10% (store entries only), else an ordinary one"""
+    r = rng.random()
+    if r < 0.18:
+        return "n"
+    if r < 0.40:
+        return rng.choice(FALSY_VALS)
+    if r < 0.50 and store:
+        return rng.choice(BIT_VALS)
+    return rng.choice(ORDINARY_VALS)
+
+
+PLACEMENTS = ["A", "S", "X", "O", "SO", "XO", "SD", "D", "SDO", "OD", "St", "Ot", "B", "BO", "BD"]
 # A absent; S in the store (live, no ttl); St in the store with a live ttl; X in the store, expired and unpurged;
 # O written in the transaction; Ot written in the transaction with a ttl; SO / XO store entry overwritten in the
 # transaction; SD store entry deleted in the transaction; D delete of an absent key; SDO deleted then written again;
-# OD written then deleted.
+# OD written then deleted; B the store holds a bit field under the key; BO ... overwritten with a value in the transaction;
+# BD ... deleted in the transaction.
 
 
 def rand_string(rng, alphabet: str, lo: int, hi: int) -> str:
@@ -479,7 +568,7 @@ def store_entry(rng, text: str, adv: int):
         ttl = adv + rng.choice([40, 80, 800])
     else:
         ttl = None
-    return [text, ttl, rng.choice(VALS)]
+    return [text, ttl, rand_val(rng, True)]
 
 
 def gen_small(rng, kind: str, alphabet: str = FULL_ALPHABET, maxpat: int = 8, mode: str | None = None) -> dict:
@@ -495,13 +584,13 @@ def gen_small(rng, kind: str, alphabet: str = FULL_ALPHABET, maxpat: int = 8, mo
         for t in rng.sample(texts + extra, k=min(len(texts + extra), rng.randint(1, 5))):
             r = rng.random()
             if r < 0.45:
-                ops.append(["set", t, rng.choice(VALS), rng.choice([None, None, 80])])
+                ops.append(["set", t, rand_val(rng, False), rng.choice([None, None, 80])])
             elif r < 0.8:
                 ops.append(["del", t])
             elif r < 0.9:
-                ops += [["del", t], ["set", t, rng.choice(VALS), None]]
+                ops += [["del", t], ["set", t, rand_val(rng, False), None]]
             else:
-                ops += [["set", t, rng.choice(VALS), None], ["del", t]]
+                ops += [["set", t, rand_val(rng, False), None], ["del", t]]
         case["txops"] = ops
         case["txadv"] = rng.choice([0, 0, 4])
         if rng.random() < 0.3:
@@ -537,34 +626,68 @@ def gen_invalidate(rng, alphabet: str = FULL_ALPHABET, mode: str | None = None) 
     case["keys"] = [store_entry(rng, t, case["adv"]) for t in texts]
     if mode:
         case["mode"] = mode
-        case["txops"] = [["set", t, rng.choice(VALS), None] for t in gen_keys(rng, pat, alphabet, rng.randint(0, 2))]
+        case["txops"] = [["set", t, rand_val(rng, False), None] for t in gen_keys(rng, pat, alphabet, rng.randint(0, 2))]
     return case
 
 
-def split_case(rng, texts: list[str], placement: list[str], pattern: str, cmd: str, mode: str) -> dict:
-    """the transaction case in which key i of `texts` is placed as `placement[i]` says (see PLACEMENTS)"""
+def split_case(rng, texts: list[str], placement: list[str], pattern: str, cmd: str, mode: str, vals=None) -> dict:
+    """the transaction case in which key i of `texts` is placed as `placement[i]` says (see PLACEMENTS);
+    `vals[i] = (store value, value written in the transaction)` when given, else drawn from `rng`"""
     adv = 16
     keys, ops = [], []
-    for t, p in zip(texts, placement):
-        v = rng.choice(VALS)
-        w = rng.choice(VALS)
-        if p in ("S", "SO", "SD", "SDO"):
+    for i, (t, p) in enumerate(zip(texts, placement)):
+        if vals is not None:
+            v, w = vals[i]
+        else:
+            v = rand_val(rng, False)
+            w = rand_val(rng, False)
+        if p in ("B", "BO", "BD"):
+            keys.append([t, None, v if is_bits(v) else rng.choice(BIT_VALS)])
+        elif p in ("S", "SO", "SD", "SDO"):
             keys.append([t, None, v])
         elif p == "St":
             keys.append([t, adv + 80, v])
         elif p in ("X", "XO"):
             keys.append([t, 8, v])
-        if p in ("O", "SO", "XO"):
+        if p in ("O", "SO", "XO", "BO"):
             ops.append(["set", t, w, None])
         elif p == "Ot":
             ops.append(["set", t, w, 80])
-        elif p in ("SD", "D"):
+        elif p in ("SD", "D", "BD"):
             ops.append(["del", t])
         elif p == "SDO":
             ops += [["del", t], ["set", t, w, None]]
         elif p == "OD":
             ops += [["set", t, w, None], ["del", t]]
     return {"kind": "tx", "mode": mode, "keys": keys, "adv": adv, "txops": ops, "txadv": 0, "cmd": cmd, "pattern": pattern}
+
+
+def value_grid() -> list[tuple[str, dict]]:
+    """Every value of the alphabet in every position a pattern command can meet it (fully enumerated, no randomness).
+    One subject key 'a.b' (matches 'a.*') next to a matching bystander 'a.c' with an ordinary value and a
+    non-matching bystander 'axb' holding None.
+    Outside a transaction: each store value (plain values and bit fields) x {no ttl, live ttl, expired-unpurged} x the three
+    commands x Memory / facade / signed facade.  Inside a transaction: each placement of the subject key that involves a value
+    (in the store, written in the transaction, both) x each store value x each written value x the three commands x the three modes."""
+    out = []
+    others = [["axb", None, "n"], ["a.c", None, "t:1"]]
+    for kind in ("mem", "facade", "facade_secret"):
+        for v in STORE_VALS:
+            for ttl, adv in ((None, 0), (96, 16), (8, 16)):
+                for cmd in ("scan", "get_match", "delete_match"):
+                    c = {"kind": kind, "keys": [["a.b", ttl, v]] + others, "adv": adv, "cmd": cmd, "pattern": "a.*"}
+                    out.append((f"values:{kind}:{v}:{ttl}:{cmd}", c))
+    store_only, tx_only, both = ("S", "St", "X", "SD"), ("O", "Ot", "OD"), ("SO", "XO", "SDO")
+    for mode in ("fast", "locked", "serializable"):
+        for cmd in ("get_match", "scan", "delete_match"):
+            combos = [(p, v, "t:2") for p in store_only for v in STORE_VALS]
+            combos += [(p, "t:2", w) for p in tx_only for w in PLAIN_VALS]
+            combos += [(p, v, w) for p in both for v in STORE_VALS for w in PLAIN_VALS]
+            for p, v, w in combos:
+                c = split_case(None, ["a.b", "axb", "a.c"], [p, "S", "S"], "a.*", cmd, mode,
+                               vals=[(v, w), ("n", "n"), ("t:1", "t:1")])
+                out.append((f"values:tx:{mode}:{p}:{v}:{w}:{cmd}", c))
+    return out
 
 
 # ------------------------------------------------------------------------------------------------
@@ -608,4 +731,28 @@ def interesting(case: dict) -> list[str]:
             tags.append("tx_matching_key_only_in_overlay")
     if case["kind"] == "invalidate" and sel:
         tags.append("invalidate_template_selects_a_key")
-    return tags
+    # --- values: what the reader sees under each key when the pattern command runs
+    visible = {k[0]: k[2] for k in case["keys"] if k[0] in live}
+    store_val = dict(visible)
+    for op in ops:
+        if op[0] == "set":
+            visible[op[1]] = op[2]
+        else:
+            visible.pop(op[1], None)
+    cmd = "delete_match" if case["kind"] == "invalidate" else case["cmd"]
+    hit = {k: v for k, v in visible.items() if pyglob(pat, k)}
+    if any(is_bits(v) for v in hit.values()):
+        tags.append("matching_key_holds_a_bit_field")
+    if cmd == "get_match":
+        if "n" in hit.values():
+            tags.append("get_match_matching_key_holds_None")
+        if any(v in FALSY_VALS for v in hit.values()):
+            tags.append("get_match_matching_key_holds_a_falsy_value")
+        for op in ops:
+            k = op[1]
+            if op[0] == "set" and k in hit and hit[k] == op[2] and k in store_val and store_val[k] != op[2]:
+                if op[2] == "n":
+                    tags.append("tx_None_written_over_a_matching_store_value")
+                elif is_bits(store_val[k]):
+                    tags.append("tx_value_written_over_a_matching_bit_field")
+    return sorted(set(tags))
